@@ -65,8 +65,17 @@ def run_case(case):
     cfg["prior_nan_outside"] = False  # C10's input class; here the carried prior is compared with the -inf convention
     shown = {k: cfg.get(k) for k in ("sampler", "xp", "dtype", "n", "opts", "precond", "outside_mode", "recipe", "resume", "cut_below")}
     where = f"{shown}"
+    import contextlib
+
+    from .. import env
+
+    debug = bool(g.random() < 0.35)
+    counters["runs_with_debug_logging"] += int(debug)
+    shown["debug_logging"] = debug
+    where = f"{shown}"
     try:
-        out = boundary.execute(cfg)
+        with env.debug_logging() if debug else contextlib.nullcontext():
+            out = boundary.execute(cfg)
     except boundary.DegenerateWorkload as exc:
         counters["degenerate_population_not_judged"] += 1
         return {"viol": [], "counters": dict(counters), "nontrivial": [], "sample": {"where": shown, "not_judged": str(exc)}}
